@@ -68,13 +68,23 @@ Proof.
   destruct (lbuf_save now (b_lines bf) 0 (length (b_lines bf)) (b_path bf) bang (b_mtime bf) fs sch) as [[st fs'] r].
   destruct st; [apply IH | reflexivity | reflexivity].
 Qed.
+Lemma quit_marks_l_nil now all bang : forall bufs fs sch,
+  quit_marks_l now all bang [] bufs fs sch = quit_marks now all bang bufs fs sch.
+Proof.
+  induction bufs as [|bf rest IH]; intros fs sch; cbn [quit_marks_l quit_marks]; [reflexivity|].
+  destruct (negb all && negb bang && b_dirty bf); [reflexivity|]. destruct all.
+  - rewrite lbuf_save_l_nil.
+    destruct (lbuf_save now (b_lines bf) 0 (length (b_lines bf)) (b_path bf) bang (b_mtime bf) fs sch) as [[st fs'] r].
+    destruct st; [rewrite IH; reflexivity | reflexivity | reflexivity].
+  - rewrite IH. reflexivity.
+Qed.
 Lemma ec_quit_l_nil now wr isx all bang bufs fs sch :
   ec_quit_l now wr isx all bang [] bufs fs sch = ec_quit now wr isx all bang bufs fs sch.
 Proof.
   unfold ec_quit_l, ec_quit. destruct bufs as [|b0 rest]; [reflexivity|]. destruct wr.
   - rewrite ec_write_l_nil. destruct (ec_write now isx bang None (b_path b0) b0 fs sch) as [[[st b0'] fs'] r].
-    destruct st; [rewrite quit_loop_l_nil; reflexivity | reflexivity | reflexivity].
-  - rewrite quit_loop_l_nil. reflexivity.
+    destruct st; [rewrite quit_loop_l_nil, quit_marks_l_nil; reflexivity | reflexivity | reflexivity].
+  - rewrite quit_loop_l_nil, quit_marks_l_nil. reflexivity.
 Qed.
 
 (* ------------------------------------------------------------------ the guards through links *)
